@@ -385,7 +385,11 @@ class StorageFrontend:
         if not (fuzzy_for or fuzzy_for_options):
             return lineage == desired_lineage
         args = [fuzzy_for, fuzzy_for_options]
-        return self._filter_lineage(lineage, *args) == self._filter_lineage(desired_lineage, *args)
+        # Lineages read back from (json) metadata contain lists where the
+        # requested lineage has tuples: compare a normalized form
+        return strax.hashablize(self._filter_lineage(lineage, *args)) == strax.hashablize(
+            self._filter_lineage(desired_lineage, *args)
+        )
 
     @staticmethod
     def _filter_lineage(lineage, fuzzy_for, fuzzy_for_options):
